@@ -615,6 +615,45 @@ fn reversed_comparison(comparison: Comparison) -> Comparison {
     }
 }
 
+/// `simplify` drops the identity constants of an n-ary and/or and hands a single remaining
+/// operand back as it is (`x and 1` becomes `x`), so that operand would never meet the 0/1 check
+/// the lowering applies to the operands of a logic node. Every and/or of the source expression
+/// that collapses this way is checked here, before the expression is normalised, with the same
+/// test: the operand must lower to a 0/1 value.
+fn check_collapsing_logic_operands(
+    exp: &Exp,
+    linearizer_context: &mut Linearizer,
+) -> Result<(), LinearizationError> {
+    match exp {
+        Exp::Number(_) | Exp::Variable(_) => return Ok(()),
+        Exp::Abs(inner) | Exp::Not(inner) | Exp::UnOp(_, inner) => {
+            check_collapsing_logic_operands(inner, linearizer_context)?
+        }
+        Exp::Min(exps) | Exp::Max(exps) | Exp::And(exps) | Exp::Or(exps) => {
+            for exp in exps {
+                check_collapsing_logic_operands(exp, linearizer_context)?;
+            }
+        }
+        Exp::Xor(lhs, rhs) | Exp::Implies(lhs, rhs) | Exp::Iff(lhs, rhs) | Exp::BinOp(_, lhs, rhs) => {
+            check_collapsing_logic_operands(lhs, linearizer_context)?;
+            check_collapsing_logic_operands(rhs, linearizer_context)?;
+        }
+    }
+    if matches!(
+        exp,
+        Exp::And(_) | Exp::Or(_) | Exp::BinOp(BinOp::And, _, _) | Exp::BinOp(BinOp::Or, _, _)
+    ) {
+        let collapsed = exp.simplify();
+        if !is_logic_value(&collapsed, linearizer_context) {
+            let lowered = collapsed.linearize(linearizer_context, ValueRequirement::Exact)?;
+            if !is_binary_context(&lowered, &linearizer_context.domain) {
+                return Err(LinearizationError::NonBinaryLogicOperand(Box::new(collapsed)));
+            }
+        }
+    }
+    Ok(())
+}
+
 fn is_logic_value(exp: &Exp, linearizer_context: &Linearizer) -> bool {
     match exp {
         Exp::Number(value) => *value == 0.0 || *value == 1.0,
@@ -1558,6 +1597,7 @@ impl Linearizer {
         bounds.apply_to_domain(&mut domain);
         let mut context = Linearizer::new_from_with_bounds(constraints, domain, bounds);
         let objective_type = objective.objective_type.clone();
+        check_collapsing_logic_operands(&objective.rhs, &mut context)?;
         let objective_exp = normalize(objective.rhs);
         let objective_requirement = match &objective_type {
             OptimizationType::Min => ValueRequirement::PreferLower,
@@ -1568,6 +1608,10 @@ impl Linearizer {
         while let Some(constraint) = context.pop_constraint() {
             let is_logic_assertion = constraint.is_logic_assertion();
             let (lhs, op, rhs, name) = constraint.into_parts();
+            check_collapsing_logic_operands(&lhs, &mut context)?;
+            if !is_logic_assertion {
+                check_collapsing_logic_operands(&rhs, &mut context)?;
+            }
             let lhs = normalize(lhs);
             let rhs = normalize(rhs);
             if is_logic_assertion {
